@@ -319,6 +319,106 @@ def oversize(n: int, k: int, crlf: bool, titan: bool, up: bool) -> bool:
     return V(well_formed(t))
 
 
+# ---- the same outcomes behind the PyOpenSSL wrapper ------------------------------------------
+def tls_wrap(st: int, mc: int, bk: int, raises: bool, ec: int, flights: int, coalesce: bool, is_async: bool) -> bool:
+    """
+    pre: 0 <= st < len(STS) and 0 <= bk <= 5
+    pre: is_meta_char(mc) and is_scalar(ec)
+    pre: 1 <= flights <= 2
+    post: _
+    """
+    from vf.server import well_formed_data
+    from vf.tls import StubTLSConn
+    from vf.tlsserver import feed, make_tls
+    h = _H(is_async, raises, STS[st], mc, bk, ec)
+    conn = StubTLSConn(flights=flights)
+    outer, tcp, loop, conn, made = make_tls(h, None, None, conn)
+    for i in range(flights - 1):
+        feed(outer, tcp, [("hs",)])
+        if made:
+            return V(False)                 # inner protocol before the handshake has completed
+    if coalesce:
+        feed(outer, tcp, [("hs",), ("app", b"gemini://h/x\r\n")])     # request rides with the last handshake flight
+    else:
+        feed(outer, tcp, [("hs",)])
+        feed(outer, tcp, [("app", b"gemini://h/x\r\n")])
+    loop.run_ready()
+    plain, close_seen, after, all_out = conn.delivered(tcp)
+    if h.calls != 1 or after != 0 or tcp.closed < 1 or not close_seen:
+        return V(False)
+    return V(well_formed_data(plain, 1, 0))
+
+
+def tls_garbage(kind: int, flights: int) -> bool:
+    """
+    pre: 0 <= kind <= 2 and 1 <= flights <= 2
+    post: _
+    """
+    # bytes that are not a TLS handshake (or a broken one) never reach a handler nor elicit a Gemini response
+    from vf.tls import StubTLSConn
+    from vf.tlsserver import feed, make_tls
+    h = _H(False, False, 20, 0x61, 2, 0x61)
+    conn = StubTLSConn(flights=flights, fail_handshake=(kind == 2))
+    outer, tcp, loop, conn, made = make_tls(h, None, None, conn)
+    first = [("app", b"gemini://h/x\r\n")] if kind == 0 else [("badhs",)] if kind == 1 else [("hs",)]
+    feed(outer, tcp, first)
+    feed(outer, tcp, [("app", b"gemini://h/x\r\n")])
+    loop.run_ready()
+    plain, close_seen, after, all_out = conn.delivered(tcp)
+    return V(h.calls == 0 and not made and len(plain) == 0 and tcp.closed >= 1)
+
+
+# ---- built-in handlers behind the real router, as start_server assembles them ------------------
+NASTY = ["plain.gmi", "sp ace.gmi", "new\nline.gmi", "=> gemini://evil/ x", "cr\rname", "n\udc80.gmi", "\u00e9.gmi", "x" * 200 + ".gmi"]
+REQ_PATHS = ["/", "/d/", "/d", "/NAME", "/d/NAME", "/static/", "/static/d/", "/static/NAME", "/nope", "/static/nope", ""]
+
+
+def compose(ni: int, pi: int, listing: bool, routing: int) -> bool:
+    """
+    pre: 0 <= ni < len(NASTY) and 0 <= pi < len(REQ_PATHS) and 0 <= routing <= 2
+    post: _
+    """
+    import pathlib
+    from urllib.parse import quote
+    from nauyaca.server.config import ServerConfig
+    from nauyaca.server.location import HandlerType, LocationConfig
+    from vf.capture import capture, inner_protocol
+    from vf.modelfs import FILE, ModelFS
+    from vf.stubs import FakeTransport
+    name = NASTY[ni]
+    fs = ModelFS(cwd="/srv")
+    fs.mkdirs("/srv/root/d", "/tmp")
+    fs.add("/srv/root/" + name, FILE, b"# page\n")
+    fs.add("/srv/root/d/" + name, FILE, b"\xff\xfe not utf-8")
+    fs.add("/srv/root/d/other.gmi", FILE, b"ok")
+    fs.install()
+    try:
+        locs = None
+        if routing == 1:
+            locs = [LocationConfig(prefix="/static/", handler_type=HandlerType.STATIC, document_root=pathlib.Path("/srv/root"),
+                                   enable_directory_listing=listing)]
+        elif routing == 2:
+            locs = [LocationConfig(prefix="/static/", handler_type=HandlerType.STATIC, document_root=pathlib.Path("/srv/root/d"),
+                                   enable_directory_listing=listing),
+                    LocationConfig(prefix="/", handler_type=HandlerType.STATIC, document_root=pathlib.Path("/srv/root"),
+                                   enable_directory_listing=listing)]
+        cfg = ServerConfig(document_root=pathlib.Path("/srv/root"), locations=locs, enable_rate_limiting=False)
+        cap = capture(cfg, enable_directory_listing=listing, enable_rate_limiting=False)
+        p = inner_protocol(cap)
+        t = FakeTransport()
+        p.connection_made(t)
+        try:
+            enc = quote(name, safe="")
+        except UnicodeEncodeError:
+            enc = "undecodable"
+        path = REQ_PATHS[pi].replace("NAME", enc)
+        p.data_received(("gemini://h" + path).encode("utf-8") + b"\r\n")
+        cap["loop"].run_ready()
+    finally:
+        fs.uninstall()
+    return V(well_formed(t))
+
+
 META = {
     "files": ["src/nauyaca/server/protocol.py", "src/nauyaca/protocol/request.py", "src/nauyaca/utils/url.py",
               "src/nauyaca/protocol/response.py"],
@@ -384,6 +484,21 @@ OBLIGATIONS = [
     Ob("middleware_outcome", middleware_outcome, quick=240, thorough=900,
        symbolic="middleware outcome (allow / deny / raise with symbolic text / deny without text), handler outcome, status",
        functions=F_PROTO, stubs=STUBS),
+    Ob("tls_wrap", tls_wrap, quick=500, thorough=1500,
+       symbolic="sync/async handler outcome as in sync_outcome, behind TLSServerProtocol + TLSTransportWrapper over StubTLSConn: handshake "
+                "needing 1..2 flights, request coalesced with the final flight or in its own read",
+       functions=F_PROTO + ["TLSServerProtocol.data_received", "_do_handshake", "_initialize_inner_protocol",
+                            "_process_pending_after_handshake", "_flush_outgoing", "TLSTransportWrapper.write/close"],
+       stubs=STUBS + ["StubTLSConn"]),
+    Ob("tls_garbage", tls_garbage, quick=120, thorough=300,
+       symbolic="what arrives instead of a handshake (application bytes / broken handshake record / handshake that fails), flights",
+       functions=["TLSServerProtocol.data_received", "_do_handshake", "_close_with_error"], stubs=["StubTLSConn", "FakeTransport"]),
+    Ob("compose", compose, quick=600, thorough=1800,
+       symbolic="file name (8 incl. newline, CR, '=> ' link syntax, undecodable, 200 characters), request path (11), listing flag, "
+                "routing configuration (single root / location without catch-all / locations with catch-all) assembled by the real start_server",
+       functions=F_PROTO + ["start_server (assembly)", "default_404_handler", "Router.route", "StaticFileHandler.handle",
+                            "generate_directory_listing", "error_404"],
+       stubs=STUBS + ["ModelFS", "ServerCapture"], note="discrete dimensions"),
     Ob("oversize", oversize, quick=240, thorough=900,
        symbolic="line filler 1000..3000, cut offset, CRLF present, gemini/titan, uploads flag",
        functions=F_PROTO, stubs=STUBS),
